@@ -7,6 +7,7 @@ import Mathlib.Tactic.Ring
 import Mathlib.Tactic.FieldSimp
 import TapkeeVerif.Model.Diffusion
 import TapkeeVerif.Proofs.MatBridge
+import TapkeeVerif.Proofs.SpectralLocal
 /-!
 Helper lemmas for C09, parts B and C: `compute_diffusion_matrix` (`Model/Diffusion.lean`) returns
 `Q^{-1/2} (P⁻¹ K P⁻¹) Q^{-1/2}`, a symmetric matrix with eigenpair `(1, √q)` that is conjugate (by `Q^{1/2}`) to the
@@ -149,5 +150,75 @@ theorem dmPost_trivial {d : Nat} (V : Mat N (d + 1) K) (lam : Vec (d + 1) K) (t 
     dmPost V lam t i c = lam c.castSucc ^ t * (V i c.castSucc / s i) / κ := by
   rw [dmPost_apply, hκ i]
   ring
+
+/-! ### Diffusion Map solves its spectral problem (eigensolver contract as hypothesis) -/
+
+section solution
+open TapkeeVerif.SpectralLocal
+variable {K : Type} [Field K] [LinearOrder K] [IsStrictOrderedRing K] {N d : Nat}
+
+/-- the indices `N−d−1, …, N−1` of the `d+1` largest eigenvalues of an ascending eigensystem (what
+    `eigendecomposition(LargestEigenvalues, d+1)` returns: ascending, the largest last) -/
+def topIdx (hd : d + 1 ≤ N) : Fin (d + 1) → Fin N := shiftIdx (N - (d + 1)) (Nat.sub_add_cancel hd).le
+
+theorem topIdx_val (hd : d + 1 ≤ N) (c : Fin (d + 1)) : (topIdx hd c).1 = N - (d + 1) + c.1 := rfl
+
+theorem dm_solution' (heat sqrtO : K → K) (dist : Mat N N K) (w : K)
+    (hs : ∀ i, sqrtO (qVec heat dist w i) * sqrtO (qVec heat dist w i) = qVec heat dist w i)
+    (hs0 : ∀ i, sqrtO (qVec heat dist w i) ≠ 0)
+    (hd : d + 1 ≤ N) (Vf : Matrix (Fin N) (Fin N) K) (lam : Fin N → K)
+    (h : GenEigSystem (Mat.toM (diffusionMatrix heat sqrtO dist w)) 1 Vf lam)
+    (hsimple : ∀ j : Fin N, j.1 ≠ N - 1 → lam j ≠ 1) (t : Nat) :
+    ∃ κ : K, κ ≠ 0 ∧
+      (∀ i, Vf i (topIdx hd (Fin.last d)) = κ * sVec heat sqrtO dist w i) ∧
+      lam (topIdx hd (Fin.last d)) = 1 ∧
+      (∀ (i : Fin N) (c : Fin d),
+        dmPost (cols Vf (topIdx hd)) (fun c => lam (topIdx hd c)) t i c
+          = lam (topIdx hd c.castSucc) ^ t * (Vf i (topIdx hd c.castSucc) / sVec heat sqrtO dist w i) / κ) ∧
+      (∀ c : Fin d,
+        (markov heat dist w).mulVec (fun i => Vf i (topIdx hd c.castSucc) / sVec heat sqrtO dist w i)
+          = lam (topIdx hd c.castSucc) • (fun i => Vf i (topIdx hd c.castSucc) / sVec heat sqrtO dist w i)) ∧
+      (∀ j : Fin N, j.1 < N - (d + 1) → ∀ c, lam j ≤ lam (topIdx hd c)) ∧
+      (∀ j : Fin N, lam j ≤ 1) := by
+  set T := Mat.toM (diffusionMatrix heat sqrtO dist w) with hT
+  set s := sVec heat sqrtO dist w with hsdef
+  set j0 : Fin N := topIdx hd (Fin.last d) with hj0
+  have hj0v : j0.1 = N - 1 := by
+    rw [hj0, topIdx_val, Fin.val_last]
+    omega
+  have hTs : T.mulVec s = s := diffusion_top heat sqrtO dist w hs hs0
+  have hx : T.mulVec s = (1 : K) • (1 : Matrix (Fin N) (Fin N) K).mulVec s := by
+    rw [hTs, Matrix.one_mulVec, one_smul]
+  let i0 : Fin N := ⟨0, by omega⟩
+  have hx0 : s ≠ 0 := fun h0 => hs0 i0 (congrFun h0 i0)
+  obtain ⟨κ, hκ, hV⟩ := col_of_simple_eigenvalue h s 1 hx hx0 j0
+    (fun j hj => hsimple j (fun hjv => hj (Fin.ext (hjv.trans hj0v.symm))))
+  have hlast : lam j0 = 1 := by
+    have hcol := eigen_equation_col h j0
+    have hcolκ : (fun i => Vf i j0) = κ • s := funext fun i => by rw [hV i]; rfl
+    rw [hcolκ, Matrix.one_mulVec, Matrix.mulVec_smul, hTs] at hcol
+    have := congrFun hcol i0
+    simp only [Pi.smul_apply, smul_eq_mul] at this
+    have hne : κ * s i0 ≠ 0 := mul_ne_zero hκ (hs0 i0)
+    have h1 : 1 * (κ * s i0) = lam j0 * (κ * s i0) := by rw [one_mul]; exact this
+    exact (mul_right_cancel₀ hne h1).symm
+  refine ⟨κ, hκ, hV, hlast, ?_, ?_, ?_, ?_⟩
+  · intro i c
+    exact dmPost_trivial (cols Vf (topIdx hd)) (fun c => lam (topIdx hd c)) t s κ hV i c
+  · intro c
+    refine diffusion_conj heat sqrtO dist w hs hs0 (fun i => Vf i (topIdx hd c.castSucc)) _ ?_
+    rw [eigen_equation_col h, Matrix.one_mulVec]
+  · intro j hj c
+    apply h.sorted
+    rw [Fin.le_def, topIdx_val]
+    omega
+  · intro j
+    rw [← hlast]
+    apply h.sorted
+    rw [Fin.le_def, hj0v]
+    have := j.2
+    omega
+
+end solution
 
 end TapkeeVerif.Diffusion
